@@ -19,7 +19,7 @@ func init() {
 		Rule: "grid phase: case = one polygonal geometry (1-2 polygons x 1-3 rings of 0-7 unfiltered vertices on the half-integer grid {0,.5,..,4}^2: self-intersecting, collinear, repeated-vertex, clockwise, unclosed and closed rings all occur; also *Bounds; 30% of the polygonals are handed over with their rings laid out as consecutive sub-slices of one backing array while the oracle reads a separately allocated copy) and all 81 grid points judged by an exact integer/rational crossing-number + on-segment oracle, plus MultiPoint/LineString/MultiLineString/Polygon receivers (random vertices, and each member polygon of the polygonal itself, same or copied storage); " +
 			"float phase: star and random-walk float polygons with margin points judged by the same rule in exact rational arithmetic; enumerate phase (thorough): every ordered triangle and quadrilateral on the 4x4 integer grid, closed and unclosed, against all 49 half-grid points; " +
 			"an evaluation is one (point, geometry) classification; non-trivial = geometry for which at least one OnEdge and one Inside answer were produced; distinct by content hash",
-		Assumptions: []string{"a ring counts when it stores >= 3 vertices (closing vertex included), as the implementation documents; closed rings with exactly 3 stored vertices are not generated", "float phase judges only points with margin >= 1e-9*diameter from every edge"},
+		Assumptions: []string{"a ring counts when it stores >= 3 vertices (closing vertex included), as the implementation documents", "float phase judges only points with margin >= 1e-9*diameter from every edge"},
 		Phases: []core.Phase{
 			{Name: "grid", NumCases: func(t string) int {
 				if t == "thorough" {
@@ -104,6 +104,8 @@ func withNegZero(pts []geom.Point) []geom.Point {
 	return o
 }
 
+var globalCounts struct{ closed3 int }
+
 func gridRing(r *gen.R) geom.Path {
 	n := r.IntRange(3, 7)
 	if r.Chance(0.08) {
@@ -120,10 +122,10 @@ func gridRing(r *gen.R) geom.Path {
 		ring[r.Intn(n)] = ring[r.Intn(n)] // repeated vertex
 	}
 	if n == 3 && len(ring) == 3 && ring[0] == ring[2] {
-		ring[2] = gridPt(r)
-		if ring[0] == ring[2] {
-			ring = append(ring, gridPt(r))
-		}
+		// three stored vertices of which the last repeats the first: a two-vertex ring in the
+		// closed spelling. It stores three vertices, so it counts as a ring (a segment walked
+		// there and back: its points are OnEdge, nothing is Inside it).
+		globalCounts.closed3++
 	}
 	return ring
 }
